@@ -197,14 +197,12 @@ def r18_1(ctx, tu, entry):
     if fin is not None:
         ok = False
         for n in fin.all_nodes():
-            if n['k'] == 'for':
-                parts = n.get('parts', [])
-                c = fin.node(parts[1]) if len(parts) > 1 and parts[1] >= 0 else None
-                if c is not None and c['k'] == 'bin' and c['op'] == '<' and \
-                        cu.const_of(cu.strip_casts(fin, fin.kid(c, 1))) == mx:
-                    if any(x['k'] == 'call' and x.get('callee') == 'cli_semaphore_release'
-                           for x in fin.walk(n)):
-                        ok = True
+            if n['k'] in ('for', 'while'):
+                # a counting loop with YR_MAX_THREADS iterations, whatever its spelling
+                if cu.trip_count(fin, n) == mx and \
+                        any(x['k'] == 'call' and x.get('callee') == 'cli_semaphore_release'
+                            for x in fin.walk(n)):
+                    ok = True
         ctx.ob('R18.1', 'file_queue_finish:one-token-per-possible-thread', ok,
                '%s:%s' % (fin.file, fin.line),
                'posts YR_MAX_THREADS (%s) tokens' % mx if ok else
@@ -362,11 +360,27 @@ def r18_5(ctx, tu):
             if anc['k'] == 'for':
                 loop = anc
                 break
-        per_iter = loop is not None and '[i]' in a
-        own_scanner = loop is not None and any(
-            x['k'] == 'call' and x.get('callee') == 'yr_scanner_create' and
-            '[i].scanner' in mainf.show(mainf.call_args(x)[1])
-            for x in mainf.walk(loop))
+        # the argument is &ARR[I] with I the variable the enclosing loop steps, and a
+        # scanner is created into ARR[I].<field> in the same iteration
+        per_iter = False
+        own_scanner = False
+        av = cu.strip_casts(mainf, args[2])
+        if loop is not None and av is not None and av['k'] == 'un' and av['op'] == '&':
+            sub = cu.strip_casts(mainf, mainf.kid(av, 0))
+            if sub is not None and sub['k'] == 'sub':
+                arr = mainf.show(mainf.kid(sub, 0))
+                ivar = cu.strip_casts(mainf, mainf.kid(sub, 1))
+                parts = loop.get('parts', [])
+                inc = mainf.node(parts[2]) if len(parts) > 2 and parts[2] >= 0 else None
+                stepped = [mainf.show(mainf.kid(x, 0)) for x in (mainf.walk(inc) if inc is not None else ())
+                           if x['k'] == 'un' and x['op'] in ('++', 'post++')]
+                if ivar is not None and ivar['k'] == 'ref' and ivar['name'] in stepped:
+                    per_iter = True
+                    want = '%s[%s].' % (arr, ivar['name'])
+                    own_scanner = any(
+                        x['k'] == 'call' and x.get('callee') == 'yr_scanner_create' and
+                        want in mainf.show(mainf.call_args(x)[1])
+                        for x in mainf.walk(loop))
         ctx.ob('R18.5', 'main:one-scanner-per-thread', ok_fn and per_iter and own_scanner,
                mainf.loc(c),
                'each thread gets &thread_args[i] with a scanner created in the same iteration'
@@ -393,6 +407,92 @@ FIXTURES = {
 }
 
 
+def r18_6(ctx, tu):
+    """the file queue is a ring in a global array: the index advances wrap at the array's
+    extent, and, because "empty" is decided by comparing the two indices, the number of
+    files the producer may have queued (the initial count of the semaphore it waits on)
+    is smaller than the extent - a full ring would otherwise look empty and a consumer
+    would take that for the end of the scan"""
+    import re
+    rings = {}      # array name -> {'extent': N, 'idx': set(index globals)}
+    for f in tu.fn_list:
+        for n in f.all_nodes():
+            if n['k'] == 'sub':
+                b = cu.strip_casts(f, f.kid(n, 0))
+                i = cu.strip_casts(f, f.kid(n, 1))
+                if b is not None and b['k'] == 'ref' and b.get('dk') in ('global', 'slocal') and \
+                        i is not None and i['k'] == 'ref' and i.get('dk') in ('global', 'slocal'):
+                    m = re.search(r'\[(\d+)\]$', b.get('t') or '')
+                    if m:
+                        r = rings.setdefault(b['name'], {'extent': int(m.group(1)), 'idx': set()})
+                        r['idx'].add(i['name'])
+    rings = {k: v for k, v in rings.items() if len(v['idx']) >= 2}
+    ctx.require(rings or ctx.fixture, 'the file queue ring (a global array indexed by two globals) was not found')
+    for arr, r in sorted(rings.items()):
+        N = r['extent']
+        # index advances:  X = (X + 1) % M
+        for f in tu.fn_list:
+            for n in f.all_nodes():
+                if n['k'] == 'bin' and n['op'] == '=':
+                    l = cu.strip_casts(f, f.kid(n, 0))
+                    rhs = cu.strip_casts(f, f.kid(n, 1))
+                    gfn = f
+                    if rhs is not None and rhs['k'] == 'call' and rhs.get('callee'):
+                        # the advance written once, in a helper that returns `(slot + 1) % M`
+                        h = tu.functions.get(rhs['callee'])
+                        rets = [x for x in h.all_nodes() if x['k'] == 'ret' and x.get('c')] if h is not None else []
+                        if h is not None and getattr(h, 'static', False) and len(rets) == 1:
+                            gfn, rhs = h, cu.strip_casts(h, h.kid(rets[0], 0))
+                    if l is not None and l['k'] == 'ref' and l['name'] in r['idx'] and \
+                            rhs is not None and rhs['k'] == 'bin' and rhs['op'] == '%':
+                        M = cu.const_of(cu.strip_casts(gfn, gfn.kid(rhs, 1)))
+                        ctx.ob('R18.6', '%s:%s:wraps-at-extent' % (f.name, l['name']), M == N, f.loc(n),
+                               '%s wraps at %d = extent of %s' % (l['name'], N, arr) if M == N else
+                               '%s wraps at %r but %s has %d elements' % (l['name'], M, arr, N))
+        # emptiness by index comparison?
+        empties = []
+        for f in tu.fn_list:
+            for n in f.all_nodes():
+                if n['k'] == 'bin' and n['op'] in ('==', '!='):
+                    a, b = cu.strip_casts(f, f.kid(n, 0)), cu.strip_casts(f, f.kid(n, 1))
+                    if a is not None and b is not None and a['k'] == 'ref' and b['k'] == 'ref' and \
+                            set([a['name'], b['name']]) <= r['idx'] and a['name'] != b['name']:
+                        empties.append((f, n))
+        # the producer: the function that stores into the array; the semaphore it waits on
+        cap = None
+        where = None
+        for f in tu.fn_list:
+            stores = [n for n in f.all_nodes() if n['k'] == 'bin' and n['op'] == '=' and
+                      any(x['k'] == 'sub' and cu.strip_casts(f, f.kid(x, 0)) is not None and
+                          cu.strip_casts(f, f.kid(x, 0)).get('name') == arr
+                          for x in f.walk(f.kid(n, 0)))]
+            if not stores:
+                continue
+            for c in f.calls():
+                if c.get('callee') == 'cli_semaphore_wait':
+                    a0 = cu.strip_casts(f, f.call_args(c)[0])
+                    if a0 is not None and a0['k'] == 'un' and a0['op'] == '&':
+                        sem = cu.strip_casts(f, f.kid(a0, 0))
+                        if sem is not None and sem['k'] == 'ref':
+                            for g in tu.fn_list:
+                                for c2 in g.calls():
+                                    if c2.get('callee') == 'cli_semaphore_init':
+                                        b0 = cu.strip_casts(g, g.call_args(c2)[0])
+                                        if b0 is not None and b0['k'] == 'un' and \
+                                                cu.strip_casts(g, g.kid(b0, 0)).get('name') == sem['name']:
+                                            cap = cu.const_of(cu.strip_casts(g, g.call_args(c2)[1]))
+                                            where = g.loc(c2)
+        ctx.require(cap is not None or ctx.fixture, 'capacity semaphore of the file queue not found')
+        if cap is not None:
+            need = cap < N if empties else cap <= N
+            ctx.ob('R18.6', '%s:capacity-below-extent' % arr, need, where,
+                   'at most %d files are queued in a ring of %d slots%s' % (
+                       cap, N, ' (one spare: empty is head == tail)' if empties else '') if need else
+                   'the producer may queue %d files in a ring of %d slots, and "empty" is decided by '
+                   'comparing the indices: a full queue looks empty, a consumer takes that for the end '
+                   'of the scan and the queued files are never scanned' % (cap, N))
+
+
 def run(ctx):
     cg = CallGraph(ctx.prog)
     tu = cli_tu(ctx)
@@ -403,3 +503,5 @@ def run(ctx):
     ctx.floor('R18.3', 3)
     r18_4(ctx, tu)
     r18_5(ctx, tu)
+    r18_6(ctx, tu)
+    ctx.floor('R18.6', 3)
